@@ -38,34 +38,75 @@ func ruleNestedDeletesInIntroducer(r *Report, in introducers, rule string) {
 	fresh := freshVarsOfType(fi, "SegmentSnapshot")
 	n := 0
 	for _, v := range fresh {
+		// carriers of the exclusion bitmap: the field v.deleted, and any local whose value is stored into it
+		// (`deleted := ...; deleted = ns.AddNestedDocuments(deleted); v.deleted = deleted`)
+		carriers := map[types.Object]bool{}
+		var transfers []fieldStore
 		var stores []fieldStore
 		for _, st := range storesToField(info, fi.Decl.Body, "SegmentSnapshot", "deleted") {
 			if id := baseIdent(st.Lhs.X); id != nil && info.ObjectOf(id) == v {
+				if lid, ok := ast.Unparen(st.Rhs).(*ast.Ident); ok && st.Rhs != nil {
+					if lv, ok := info.ObjectOf(lid).(*types.Var); ok && !lv.IsField() && lv.Parent() != lv.Pkg().Scope() {
+						carriers[lv] = true
+						transfers = append(transfers, st)
+						continue
+					}
+				}
 				stores = append(stores, st)
 			}
 		}
-		if len(stores) == 0 {
+		isCarrier := func(e ast.Expr) bool {
+			e = ast.Unparen(e)
+			if isField(info, e, "SegmentSnapshot", "deleted") {
+				if sel, ok := e.(*ast.SelectorExpr); ok && objOf(info, sel.X) == v {
+					return true
+				}
+			}
+			if id, ok := e.(*ast.Ident); ok && carriers[info.ObjectOf(id)] {
+				return true
+			}
+			return false
+		}
+		if len(carriers) > 0 {
+			ast.Inspect(fi.Decl.Body, func(x ast.Node) bool {
+				as, ok := x.(*ast.AssignStmt)
+				if !ok || len(as.Lhs) != len(as.Rhs) {
+					return true
+				}
+				for k, l := range as.Lhs {
+					if id, ok := l.(*ast.Ident); ok && carriers[info.ObjectOf(id)] {
+						stores = append(stores, fieldStore{as, nil, as.Rhs[k], as.Tok})
+					}
+				}
+				return true
+			})
+		}
+		if len(stores) == 0 && len(transfers) == 0 {
 			continue
 		}
 		n++
 		var nested *fieldStore
 		for i := range stores {
-			if c, ok := stores[i].Rhs.(*ast.CallExpr); ok {
+			if c, ok := ast.Unparen(stores[i].Rhs).(*ast.CallExpr); ok && stores[i].Rhs != nil {
 				if f := callee(info, c); f != nil && f.Name() == "AddNestedDocuments" {
 					nested = &stores[i]
 				}
 			}
 		}
 		if nested == nil {
-			r.Ob(rule, fi.Name+"/"+v.Name()+".deleted=AddNestedDocuments(...)", stores[0].Stmt.Pos(), false, "the introducer never expands the exclusion bitmap of a carried-over segment with the nested children of the excluded documents: a deleted/replaced parent's children stay live (on the recompute path too, where no earlier phase could have done it)")
+			pos := fi.Decl.Pos()
+			if len(stores) > 0 {
+				pos = stores[0].Stmt.Pos()
+			}
+			r.Ob(rule, fi.Name+"/"+v.Name()+".deleted=AddNestedDocuments(...)", pos, false, "the introducer never expands the exclusion bitmap of a carried-over segment with the nested children of the excluded documents: a deleted/replaced parent's children stay live (on the recompute path too, where no earlier phase could have done it)")
 			continue
 		}
-		c := nested.Rhs.(*ast.CallExpr)
-		// argument is the same field being expanded
-		okArg := len(c.Args) == 1 && isField(info, c.Args[0], "SegmentSnapshot", "deleted") && objOf(info, ast.Unparen(c.Args[0]).(*ast.SelectorExpr).X) == v
+		c := ast.Unparen(nested.Rhs).(*ast.CallExpr)
+		// argument is the same bitmap being expanded
+		okArg := len(c.Args) == 1 && isCarrier(c.Args[0])
 		// guarded only by the NestedSegment type assertion on v.segment
 		okGuard := true
-		for _, f := range g.GuardsOf(nested.Stmt) {
+		for _, f := range g.RawGuardsOf(nested.Stmt) {
 			if !benignBitmapGuard(info, f) {
 				okGuard = false
 			}
@@ -81,13 +122,25 @@ func ruleNestedDeletesInIntroducer(r *Report, in introducers, rule string) {
 			}
 		}
 		r.Ob(rule, fi.Name+"/"+v.Name()+".deleted=AddNestedDocuments("+v.Name()+".deleted)", nested.Stmt.Pos(), okArg && okGuard && hasAssert, "for segments implementing NestedSegment the exclusion bitmap is replaced by AddNestedDocuments of itself, conditional only on the type assertion")
-		// it is the LAST store: every other store can reach it, it reaches none of them
+		// it is the LAST store: every other store can reach it, it reaches none of them;
+		// a transfer of the local into the field comes after it
 		okLast := true
 		for i := range stores {
 			if &stores[i] == nested {
 				continue
 			}
 			if !g.ReachesFwdNode(stores[i].Stmt, g.condOf(nested.Stmt)) || g.ReachesFwdNode(nested.Stmt, stores[i].Stmt) {
+				okLast = false
+			}
+		}
+		if nested.Lhs == nil { // the expansion is applied to a local: it must flow into the field afterwards
+			flows := false
+			for _, t := range transfers {
+				if g.ReachesFwdNode(nested.Stmt, t.Stmt) {
+					flows = true
+				}
+			}
+			if !flows {
 				okLast = false
 			}
 		}
